@@ -334,6 +334,21 @@ Proof.
 Qed.
 Print Assumptions C04_hook_reading_stdin_decided.
 
+(* the source as it is now (/repo d8ba809): robsd_hook() gives the hook /dev/null as standard input, so every run with hooks
+   that read their input is a run of the transition system.  Closed by [eq_refl] on the generated constant: reverting the
+   repair makes this proof fail (and the lane hook-stdin finds the failing run) *)
+Theorem C04_hook_stdin_is_dev_null_now :
+  robsd_hook_stdin = HookStdinNull /\
+  forall reads ncpu exit_of name_of sched s,
+    orun_h robsd_hook_stdin reads ncpu exit_of name_of s sched = orun ncpu exit_of name_of s sched.
+Proof.
+  exact (match C04_hook_reading_stdin_decided with
+         | or_introl H => H
+         | or_intror (conj H _) => match (eq_ind robsd_hook_stdin (fun x => match x with HookStdinNull => True | HookStdinInherited => False end) I _ H) with end
+         end).
+Qed.
+Print Assumptions C04_hook_stdin_is_dev_null_now.
+
 (* a hook that does not read its input changes nothing, whatever it inherits *)
 Theorem C04_hook_not_reading_is_harmless : forall hs ncpu s, main_step_h hs (fun _ => false) ncpu s = main_step ncpu s.
 Proof. exact hook_not_reading_is_the_model. Qed.
